@@ -66,7 +66,7 @@ def run(tier):
         for e, got, want in zip(envs, obs, fr[1:]):
             if want == "undefined": R.count("reference_undefined"); continue
             if got != want:
-                R.fail(dict(marker=s, env=e), f"validate={got}, reference={want} (parsed as {m})"); break
+                R.fail(dict(marker=s, env=e), f"validate={got}, reference={want} (parsed as {m})", MI.d35_matcher); break
         mreq.append(["meval", MI.tree_to_expr(s)] + eenc); midx.append(("tree", s, m, obs))
         mreq.append(["mstruct", MI.enc_marker(m)] + eenc); midx.append(("struct", s, m, obs))
     for (kind, s, m, obs), res in zip(midx, M.many(mreq)):
